@@ -10,7 +10,7 @@ from .. import cv, gen, lib, ref
 from ..lib import call
 
 PROP = "C10"
-PLAN = {"quick": (1900, 400), "thorough": (150000, 3600)}
+PLAN = {"quick": (1900, 400), "thorough": (80000, 3600)}
 RULE = ("cases: rule = (family, n) for closed/open Newton-Cotes, Chebyshev, Gauss-Legendre, n<=16 (exact families to 24 in "
         "thorough): node order, range, count, weight sum and every moment d<n (d<2n Gauss); history = a random interleaving "
         "of 12-40 calls to NodeSample / IntegratorArray / Integrate / LeastSquare whose every returned rule must be "
